@@ -174,11 +174,19 @@ func subPathPool() [][]string {
 }
 
 type trialCfg struct {
-	targets []string
+	targets []string // targets with a writer; present at the start and at quiescence
+	removed string   // in the cache at the start (pre-filled), removed at a seeded moment, never re-added
+	ghost   string   // never in the cache
 	origin  string
 	users   []string
 	acl     *aclTable
 }
+
+// names: the targets that have a write history (index = history slot).
+func (tc *trialCfg) names() []string { return append(append([]string{}, tc.targets...), tc.removed) }
+
+// all: every target name a subscription or an ACL row may mention.
+func (tc *trialCfg) all() []string { return append(tc.names(), tc.ghost) }
 
 func (tc *trialCfg) fullKey(target string, p []string) []string {
 	k := []string{target}
@@ -281,7 +289,7 @@ type trialState struct {
 }
 
 func (ts *trialState) witness(s *sub) map[string]interface{} {
-	w := map[string]interface{}{"targets": ts.tc.targets, "origin": ts.tc.origin, "acl_table": ts.tc.acl.allow, "users_failing_NewRPCACL": ts.failing(), "subscription": s.describe()}
+	w := map[string]interface{}{"targets": ts.tc.targets, "target_removed_for_good": ts.tc.removed, "target_never_existing": ts.tc.ghost, "origin": ts.tc.origin, "acl_table": ts.tc.acl.allow, "users_failing_NewRPCACL": ts.failing(), "subscription": s.describe()}
 	for k, v := range ts.extra {
 		w[k] = v
 	}
@@ -397,6 +405,8 @@ func runTrial(r *vlib.Run, mode string, trial int, rng *rand.Rand) {
 	for i := 0; i < nT; i++ {
 		tc.targets = append(tc.targets, fmt.Sprintf("T%d", i))
 	}
+	tc.removed, tc.ghost = "R0", "G0"
+	names, all := tc.names(), tc.all()
 	if rng.Intn(2) == 0 {
 		tc.origin = "oc"
 	}
@@ -406,7 +416,7 @@ func runTrial(r *vlib.Run, mode string, trial int, rng *rand.Rand) {
 		tc.users = append(tc.users, name)
 		row := map[string]bool{}
 		kind := rng.Intn(6)
-		for _, t := range tc.targets {
+		for _, t := range all {
 			switch kind {
 			case 0:
 				row[t] = false // all-deny
@@ -419,21 +429,21 @@ func runTrial(r *vlib.Run, mode string, trial int, rng *rand.Rand) {
 		tc.acl.allow[name] = row
 	}
 	rootRow, anonRow := map[string]bool{}, map[string]bool{}
-	for _, t := range tc.targets {
+	for _, t := range all {
 		rootRow[t], anonRow[t] = true, true
 	}
 	tc.acl.allow["root"], tc.acl.allow["anon"] = rootRow, anonRow
 	tc.acl.star = rng.Intn(2) == 0
 	tc.acl.failAll = rng.Intn(16) == 0
 
-	c := cache.New(tc.targets)
+	c := cache.New(names)
 	srv, _ := subscribe.NewServer(c, subscribe.WithACL(tc.acl))
 	c.SetClient(srv.Update)
 	leaves := leafPaths(2 + rng.Intn(3))
 	nops := 30 + rng.Intn(150)
 	totalOps := int64(nops * nT)
 
-	ts := &trialState{r: r, mode: mode, trial: trial, tc: tc, c: c, srv: srv, hist: make([][]wop, nT), extra: map[string]interface{}{"gomaxprocs": procs, "ops_per_writer": nops}}
+	ts := &trialState{r: r, mode: mode, trial: trial, tc: tc, c: c, srv: srv, hist: make([][]wop, len(names)), extra: map[string]interface{}{"gomaxprocs": procs, "ops_per_writer": nops}}
 
 	// Subscriptions of the churn phase.
 	pool := subPathPool()
@@ -473,7 +483,14 @@ func runTrial(r *vlib.Run, mode string, trial int, rng *rand.Rand) {
 		if rng.Intn(2) == 0 {
 			s.target = "*"
 		} else {
-			s.target = tc.targets[rng.Intn(nT)]
+			switch z := rng.Intn(8); z {
+			case 0:
+				s.target = tc.ghost
+			case 1:
+				s.target = tc.removed
+			default:
+				s.target = tc.targets[rng.Intn(nT)]
+			}
 		}
 		switch y := rng.Intn(20); {
 		case y < 4:
@@ -507,9 +524,14 @@ func runTrial(r *vlib.Run, mode string, trial int, rng *rand.Rand) {
 		ts.newSub(s)
 		ts.newSub(&sub{user: "root", target: "*", mode: s.mode, paths: s.paths, polls: s.polls, twinOf: s.idx, static: true})
 	}
-	{
-		s := &sub{user: tc.users[rng.Intn(nU)], target: tc.targets[rng.Intn(nT)], twinOf: -1, static: true, paths: pickPaths(), polls: 1}
-		s.mode = []string{"once", "poll"}[rng.Intn(2)]
+	for _, t := range []string{tc.targets[rng.Intn(nT)], tc.removed, tc.ghost} {
+		s := &sub{user: tc.users[rng.Intn(nU)], target: t, twinOf: -1, static: true, paths: pickPaths(), polls: 1}
+		// On the absent targets every mode must end on its own (PermissionDenied /
+		// NotFound); on a present one only ONCE and POLL do.
+		s.mode = []string{"once", "poll", "stream", "stream-uo"}[rng.Intn(4)]
+		if t != tc.removed && t != tc.ghost {
+			s.mode = []string{"once", "poll"}[rng.Intn(2)]
+		}
 		ts.newSub(s)
 	}
 
@@ -537,11 +559,11 @@ func runTrial(r *vlib.Run, mode string, trial int, rng *rand.Rand) {
 	for i := range wseeds {
 		wseeds[i] = rng.Int63()
 	}
-	tsOf := make([]int64, nT)
+	tsOf := make([]int64, len(names))
 	var writerPanic atomic.Value
 	write := func(ti int, kind string, p []string, val int64) {
 		tsOf[ti]++
-		o := wop{Kind: kind, Target: tc.targets[ti], Path: p, Val: val}
+		o := wop{Kind: kind, Target: names[ti], Path: p, Val: val}
 		var n *pb.Notification
 		switch kind {
 		case "upd":
@@ -575,7 +597,7 @@ func runTrial(r *vlib.Run, mode string, trial int, rng *rand.Rand) {
 	}
 	var ctr int64
 	newVal := func(ti int) int64 { return int64(ti+1)<<40 | atomic.AddInt64(&ctr, 1) }
-	for ti := range tc.targets {
+	for ti := range names {
 		for _, p := range leaves {
 			if rng.Intn(2) == 0 {
 				write(ti, "upd", p, newVal(ti))
@@ -623,6 +645,9 @@ func runTrial(r *vlib.Run, mode string, trial int, rng *rand.Rand) {
 				default:
 					write(ti, "remove", nil, 0)
 					absentFor = wr.Intn(5)
+					if wr.Intn(3) == 0 {
+						absentFor = 8 + wr.Intn(30) // left removed for a while
+					}
 				}
 				atomic.AddInt64(&progress, 1)
 				if wr.Intn(8) == 0 {
@@ -634,6 +659,21 @@ func runTrial(r *vlib.Run, mode string, trial int, rng *rand.Rand) {
 			}
 		}()
 	}
+	// The target that is removed for good: at a seeded moment, by its own goroutine.
+	removeAt := int64(0)
+	if rng.Intn(4) != 0 {
+		removeAt = rng.Int63n(totalOps + 1)
+	}
+	wg.Add(1)
+	go func() {
+		defer wg.Done()
+		for atomic.LoadInt64(&progress) < removeAt {
+			runtime.Gosched()
+			time.Sleep(20 * time.Microsecond)
+		}
+		write(nT, "remove", nil, 0)
+	}()
+	ts.extra["removed_for_good_at_op"] = removeAt
 	for _, s := range ts.subs[:churn] {
 		s := s
 		go func() {
@@ -709,6 +749,13 @@ func runTrial(r *vlib.Run, mode string, trial int, rng *rand.Rand) {
 				continue
 			}
 			ctx, cancel := context.WithDeadline(context.Background(), deadline)
+			go func() {
+				select {
+				case <-s.done: // e.g. NotFound for a target that is not there
+					cancel()
+				case <-ctx.Done():
+				}
+			}()
 			ok := s.stream.WaitSent(ctx, func(sent []*pb.SubscribeResponse) bool {
 				for _, m := range sent {
 					if m.GetSyncResponse() {
@@ -730,7 +777,7 @@ func runTrial(r *vlib.Run, mode string, trial int, rng *rand.Rand) {
 		limit, cancelLimit := context.WithTimeout(context.Background(), 30*time.Second)
 		defer cancelLimit()
 		for _, s := range list {
-			if s.streaming() && expectLive(s) {
+			if s.streaming() && expectLive(s) && !s.static {
 				continue
 			}
 			// Everything else must end without the harness' help: ONCE, POLL after
@@ -841,8 +888,9 @@ func (ts *trialState) derive() {
 	ts.absent = map[string][]interval{}
 	ts.removes = map[string][]wop{}
 	ts.lastWrite = map[string]int64{}
+	ts.absent[ts.tc.ghost] = []interval{{0, 1 << 62}}
 	for ti := range ts.hist {
-		T := ts.tc.targets[ti]
+		T := ts.tc.names()[ti]
 		open := int64(-1)
 		for _, o := range ts.hist[ti] {
 			switch o.Kind {
@@ -861,7 +909,7 @@ func (ts *trialState) derive() {
 		}
 	}
 	ts.cacheNow = map[string]*pb.Notification{}
-	for _, t := range ts.tc.targets {
+	for _, t := range ts.tc.names() {
 		t := t
 		ts.c.Query(t, []string{"*"}, func(p []string, _ *ctree.Leaf, v interface{}) error {
 			ts.cacheNow[model.Key(append([]string{t}, p...))] = v.(*pb.Notification)
@@ -913,7 +961,7 @@ func (ts *trialState) judgeLeaks(s *sub) bool {
 	}
 	log := s.stream.Sent()
 	restricted := false
-	for _, t := range tc.targets {
+	for _, t := range tc.all() {
 		if !tc.acl.allowed(s.user, t) {
 			restricted = true
 		}
@@ -989,7 +1037,16 @@ func (ts *trialState) judge(s *sub, noSync bool) {
 		return
 	case "denied-single":
 		ts.nontriv++
+		// Whether or not the cache holds the target (D29): the answer to a caller
+		// who is denied a target must not depend on the target's existence.
 		gone := ts.maybeAbsent(s.target, s.callTick, s.retTick)
+		where := "target_present_throughout"
+		switch {
+		case s.target == tc.ghost:
+			where = "target_never_existed"
+		case gone:
+			where = "target_removed_or_being_removed"
+		}
 		switch {
 		case len(log) > 0:
 			ts.viol(s, "denied-single-target-got-responses", fmt.Sprintf("the ACL denies target %s to user %s, yet %d responses were sent before the call ended (status %v)", s.target, s.user, len(log), s.err), nil)
@@ -997,13 +1054,11 @@ func (ts *trialState) judge(s *sub, noSync bool) {
 			ts.viol(s, "denied-single-target-not-rejected", fmt.Sprintf("the ACL denies target %s to user %s, yet the call was not rejected (still running at the end of the trial)", s.target, s.user), nil)
 		case code == codes.PermissionDenied:
 			r.Count("denied_single_target_PermissionDenied", 1)
-			if !gone {
-				r.Count("denied_single_target_PermissionDenied_target_present_throughout", 1)
-			}
-		case code == codes.NotFound && gone:
-			r.Count("denied_single_target_NotFound_accepted_target_was_removed", 1)
+			r.Count("denied_single_target_PermissionDenied_"+where, 1)
+		case code == codes.NotFound:
+			ts.viol(s, "denied-single-target-existence-disclosed", fmt.Sprintf("the ACL denies target %s to user %s; the call ended with %v (code NotFound) instead of a permission error (%s): a caller who is denied a target learns whether the cache holds it", s.target, s.user, s.err, strings.ReplaceAll(where, "_", " ")), map[string]interface{}{"target_state_during_call": where})
 		default:
-			ts.viol(s, "denied-single-target-wrong-status", fmt.Sprintf("the ACL denies target %s to user %s and the target was in the cache for the whole call; the call ended with %v (code %v) instead of PermissionDenied", s.target, s.user, s.err, code), map[string]interface{}{"target_possibly_absent_during_call": gone})
+			ts.viol(s, "denied-single-target-wrong-status", fmt.Sprintf("the ACL denies target %s to user %s; the call ended with %v (code %v) instead of PermissionDenied (%s)", s.target, s.user, s.err, code, strings.ReplaceAll(where, "_", " ")), map[string]interface{}{"target_state_during_call": where})
 		}
 		return
 	}
@@ -1012,7 +1067,10 @@ func (ts *trialState) judge(s *sub, noSync bool) {
 	if ended {
 		switch {
 		case s.target != "*" && code == codes.NotFound && len(log) == 0 && ts.maybeAbsent(s.target, s.callTick, s.retTick):
-			r.Count("authorised_single_target_NotFound_target_was_removed", 1)
+			r.Count("authorised_single_target_NotFound_target_absent_per_harness_record", 1)
+			if s.target == tc.ghost {
+				r.Count("authorised_single_target_NotFound_target_never_existed", 1)
+			}
 			return
 		case !s.streaming() && s.err == nil:
 			// ONCE / POLL ended normally.
@@ -1045,7 +1103,7 @@ func (ts *trialState) judge(s *sub, noSync bool) {
 		return
 	}
 	allowedT := map[string]bool{}
-	for _, t := range tc.targets {
+	for _, t := range tc.all() {
 		if (s.target == "*" || s.target == t) && tc.acl.allowed(s.user, t) {
 			allowedT[t] = true
 		}
@@ -1070,7 +1128,7 @@ func (ts *trialState) judge(s *sub, noSync bool) {
 	// existed before the call and was never deleted is sent before the sync.
 	if s.mode != "stream-uo" {
 		for ti := range ts.hist {
-			T := tc.targets[ti]
+			T := tc.names()[ti]
 			if !allowedT[T] {
 				continue
 			}
@@ -1172,7 +1230,7 @@ func (ts *trialState) judge(s *sub, noSync bool) {
 		}
 		alog := a.stream.Sent()
 		aAllowed := map[string]bool{}
-		for _, t := range tc.targets {
+		for _, t := range tc.all() {
 			aAllowed[t] = tc.acl.allowed(a.user, t)
 		}
 		synced := false
@@ -1527,7 +1585,7 @@ func postMerge(tier string, c map[string]int64) []string {
 	if c["idle_probes_held_RPC_alive_and_authorised_update_delivered"] == 0 {
 		out = append(out, "no idle-after-denied probe ran to a 'held' verdict")
 	}
-	for _, k := range []string{"denied_single_target_PermissionDenied_target_present_throughout", "unauthenticated_rejected_silently", "twin_pairs_equal", "subscriber_logs_converged_to_restricted_cache"} {
+	for _, k := range []string{"denied_single_target_PermissionDenied_target_present_throughout", "denied_single_target_PermissionDenied_target_never_existed", "denied_single_target_PermissionDenied_target_removed_or_being_removed", "authorised_single_target_NotFound_target_absent_per_harness_record", "unauthenticated_rejected_silently", "twin_pairs_equal", "subscriber_logs_converged_to_restricted_cache"} {
 		if c[k] == 0 {
 			out = append(out, "oracle branch never taken: "+k)
 		}
@@ -1538,11 +1596,11 @@ func postMerge(tier string, c map[string]int64) []string {
 func main() {
 	vlib.Main(&vlib.Spec{
 		ID:   "C07",
-		Rule: "Each trial: real cache + subscribe.Server with a scripted ACL (2-3 table users x 2-4 targets, random rows incl. all-deny and all-allow, an all-allow user 'root' for twins, a user whose NewRPCACL fails; every 16th trial on average NewRPCACL fails for everybody), cache pre-filled, one writer per target issuing 30-180 operations: updates (unique values) / leaf and subtree deletes / Reset / Remove + re-Add, 3-7 subscriptions (ONCE, POLL with 0-2 interactive triggers, STREAM, STREAM+updates_only; single target or '*'; 1-2 wildcard paths) started at seeded moments, an unrestricted twin for every restricted '*' STREAM subscription, and after logical quiescence (C04's sentinel protocol) ONCE/POLL '*' twin pairs per user plus one single-target call on the unchanging cache; GOMAXPROCS in {2,4,16}; seeded delays and long holds at 7 schedule points. Every response of every stream is judged online against the table. A trial is distinct non-trivial when at least one non-vacuous clause was decided in it (an unrestricted twin received data the restricted sibling had to be denied, or a denied single-target call or an unauthenticated call was judged) and its sequence of schedule points is new. Mode 'idle' (40 / 640 trials): server with a 50-150 ms send timeout, a restricted '*' STREAM subscriber (every third block updates_only) and an unrestricted twin; after both are drained the last item the restricted sender processes is an update / delete / Reset / Remove of a DENIED target (receipt confirmed on the twin), then 3.5 send timeouts of silence, then an update of an authorised target must be delivered on a still-live RPC; an idle trial is distinct non-trivial when the probe ran to a verdict.",
+		Rule: "Each trial: real cache + subscribe.Server with a scripted ACL (2-3 table users x 2-4 written targets plus a target R0 that is pre-filled, removed at a seeded moment and never re-added and a target G0 that never exists; random rows over all of them incl. all-deny and all-allow, an all-allow user 'root' for twins, a user whose NewRPCACL fails; every 16th trial on average NewRPCACL fails for everybody), cache pre-filled, one writer per target issuing 30-180 operations: updates (unique values) / leaf and subtree deletes / Reset / Remove + re-Add (after 0-4 or, one time in three, 8-37 operation slots of absence), 3-7 subscriptions (ONCE, POLL with 0-2 interactive triggers, STREAM, STREAM+updates_only; single target - one in four of them R0 or G0 - or '*'; 1-2 wildcard paths) started at seeded moments, an unrestricted twin for every restricted '*' STREAM subscription, and after logical quiescence (C04's sentinel protocol) ONCE/POLL '*' twin pairs per user plus single-target calls (a written target: ONCE/POLL; R0 and G0: any mode) on the unchanging cache; GOMAXPROCS in {2,4,16}; seeded delays and long holds at 7 schedule points. Every response of every stream is judged online against the table; a single-target call by a caller denied that target must end PermissionDenied with zero responses whether the target is present, being removed, removed or never existed. A trial is distinct non-trivial when at least one non-vacuous clause was decided in it (an unrestricted twin received data the restricted sibling had to be denied, or a denied single-target call or an unauthenticated call was judged) and its sequence of schedule points is new. Mode 'idle' (40 / 640 trials): server with a 50-150 ms send timeout, a restricted '*' STREAM subscriber (every third block updates_only) and an unrestricted twin; after both are drained the last item the restricted sender processes is an update / delete / Reset / Remove of a DENIED target (receipt confirmed on the twin), then 3.5 send timeouts of silence, then an update of an authorised target must be delivered on a still-live RPC; an idle trial is distinct non-trivial when the probe ran to a verdict.",
 		Assumptions: []string{
 			"the ACL is a pure function of (user, target) for the duration of a trial; the user is whatever NewRPCACL reads from the stream context",
 			"one writer goroutine per target (the collector's discipline); a writer removes and re-adds only its own target",
-			"PermissionDenied is demanded exactly when the target was in the cache for the whole Subscribe call (logical clock at the harness boundary); when a Remove overlaps the call, NotFound is accepted as equally silent",
+			"a single-target call of a caller denied that target must be PermissionDenied with zero responses irrespective of the cache's content (never NotFound: that would disclose which targets exist); for an authorised caller NotFound with zero responses is accepted only when the harness's own record (logical clock at the harness boundary: Remove call .. Add return, never added) says the target was absent or being removed at some moment of the call",
 			"completeness is judged (a) under churn: leaves of authorised targets that existed before the call and were never deleted precede the sync; (b) at logical quiescence (sentinel per target rewritten until received; a sentinel of an authorised target not delivered within 40 s on an otherwise idle system is an attributable violation): replay == cache restricted to authorised targets, and == the unrestricted twin's log restricted likewise; (c) on the unchanging cache for ONCE/POLL. updates_only subscribers are owed only leaves whose last write began after their sync_response was sent",
 			"leaf and subscription path shapes are C04's, for which 'compatible' (streaming) and 'selected by a query' coincide; per-leaf value order, sync placement and POLL round counts are C04's / C05's clauses and are not asserted here",
 			"schedules are explored by perturbation, not enumerated",
